@@ -309,10 +309,8 @@ def _loop_where(body, header):
 def _scan_progress(f, body, tr, header, blocks):
     """i += <end of group 0 of the selected match>, on every cycle, and the empty-match guard
     (Range::is_empty -> return Err(EmptyRegexCapture)) is in the loop"""
-    il = None
-    for l, decl in enumerate(body.locals):
-        if decl.get("name") == "i":
-            il = l
+    from ..lib.cfgq import scan_offset_local
+    il = scan_offset_local(body)
     if il is None:
         return "no scan offset variable"
     adv_blocks = set()
